@@ -1,4 +1,6 @@
 """Build steps shared by all checks: translator, Lean model/proofs, C++ harness."""
+import contextlib
+import fcntl
 import hashlib
 import os
 import shutil
@@ -22,6 +24,19 @@ CXXFLAGS = [
 TSAN_FLAGS = ["-std=c++17", "-O1", "-g1", "-ffp-contract=off", "-fsanitize=thread", "-UNDEBUG", "-D" + GUARD, "-pthread"]
 
 
+@contextlib.contextmanager
+def build_lock(name):
+    """Serialise build steps between check processes that run at the same time (they share
+    lean/.lake, Generated.lean and the harness cache)."""
+    os.makedirs(BUILD, exist_ok=True)
+    with open(os.path.join(BUILD, ".lock_" + name), "w") as lf:
+        fcntl.flock(lf, fcntl.LOCK_EX)
+        try:
+            yield
+        finally:
+            fcntl.flock(lf, fcntl.LOCK_UN)
+
+
 def log(msg):
     print("[build] " + msg, file=sys.stderr, flush=True)
 
@@ -42,6 +57,11 @@ def tree_hash(paths, extra=""):
 
 def run_translate():
     """-> (ok, message)"""
+    with build_lock("lean"):
+        return _run_translate()
+
+
+def _run_translate():
     r = subprocess.run([sys.executable, os.path.join(ROOT, "translate.py")], capture_output=True, text=True,
                        env=dict(os.environ, FS_REPO=REPO))
     out = (r.stdout + r.stderr).strip()
@@ -51,7 +71,8 @@ def run_translate():
 def lake_build(targets, timeout=3000):
     """-> (ok, output)"""
     t0 = time.time()
-    r = subprocess.run(["lake", "build"] + targets, cwd=LEAN, capture_output=True, text=True, timeout=timeout)
+    with build_lock("lean"):
+        r = subprocess.run(["lake", "build"] + targets, cwd=LEAN, capture_output=True, text=True, timeout=timeout)
     out = "\n".join(l for l in (r.stdout + r.stderr).split("\n") if "WARNING" not in l)
     log("lake build %s: rc=%d in %.1fs" % (" ".join(targets), r.returncode, time.time() - t0))
     return r.returncode == 0, out
@@ -76,6 +97,11 @@ def _compile_many(jobs):
 
 
 def build_harness(kind="asan"):
+    with build_lock("harness_" + kind):
+        return _build_harness(kind)
+
+
+def _build_harness(kind="asan"):
     """Compile the harness against /repo's current working tree.  Cached by content hash of
     /repo/include + harness sources + flags; a changed tree always recompiles.
     -> (path or None, message)"""
